@@ -68,6 +68,27 @@ public:
     point_t _dim;
 };
 
+namespace detail {
+
+/// Throws unless the region [top_left, top_left + dim) lies inside an image of the given size.
+/// The readers address their row buffers and the file with these values.
+inline
+void check_read_region( point_t const& top_left
+                      , point_t const& dim
+                      , std::ptrdiff_t width
+                      , std::ptrdiff_t height
+                      )
+{
+    io_error_if(  top_left.x < 0 || top_left.y < 0
+               || dim.x < 0 || dim.y < 0
+               || top_left.x > width  - dim.x
+               || top_left.y > height - dim.y
+               , "The region to read lies outside of the image."
+               );
+}
+
+} // namespace detail
+
 /**
  * Boolean meta function, std::true_type if the pixel type \a PixelType is supported
  * by the image format identified with \a FormatTag.
